@@ -105,6 +105,9 @@ class Ctx:
             return path
         args = [a.replace("{out}", path).replace("{alpha}", path + ".alpha.json").replace("{seed}", str(self.seed))
                 for a in spec]
+        if any("{export}" in a for a in args):
+            ed = export_dir(self)
+            args = [a.replace("{export}", ed) for a in args]
         t = time.time()
         p = subprocess.run([PKV] + args, stdout=subprocess.PIPE, stderr=subprocess.PIPE, text=True,
                            timeout=1800)
@@ -436,6 +439,10 @@ ARTEFACTS = {
     "t_words": ["table", "words", "{out}"],
     "t_layouts": ["table", "layouts", "{out}"],
     "t_preds": ["table", "preds", "{out}"],
+    "t_eventlayouts": ["table", "eventlayouts", "{out}", "{export}/event.json"],
+    "g_frame_default": ["graph", "frame_default", "bits", "100000", "{out}", "{alpha}"],
+    "g_set1_default": ["graph", "set1_default", "bytes", "3000", "{out}", "{alpha}"],
+    "g_set2_default": ["graph", "set2_default", "bytes", "3000", "{out}", "{alpha}"],
 }
 
 JOBS = {
@@ -534,6 +541,15 @@ JOBS = {
                                env={"TABLE": "model:table", "SOURCE": "model"}, spec_only=True),
     "mc_link": dict(kind="tlc", module="Link", cfg="Link.cfg", cont=False),
     "mc_link_hazard": dict(kind="tlc", module="Link", cfg="Link_hazard.cfg", cont=False, expect_violation="NoWrongByte"),
+    "conf_eventlayouts": dict(kind="tlc", module="Conf_EventLayouts", cfg="Conf_EventLayouts.cfg", workers=8, heap="8g",
+                              env={"EVT": "art:t_eventlayouts", "TABLE": "art:t_layouts"}),
+    # the second public constructor (Default) of each stage: same conformance as new()
+    "conf_frame_default": dict(kind="tlc", module="Conf_Frame", cfg="Conf_Frame.cfg",
+                               env={"GRAPH": "art:g_frame_default", "COMP": "frame_default", "WORDS": "art:t_words"}),
+    "conf_set1_default": dict(kind="tlc", module="Conf_Set1", cfg="Conf_Set1.cfg",
+                              env={"GRAPH": "art:g_set1_default", "COMP": "set1_default"}),
+    "conf_set2_default": dict(kind="tlc", module="Conf_Set2", cfg="Conf_Set2.cfg",
+                              env={"GRAPH": "art:g_set2_default", "COMP": "set2_default"}),
     "props_scan": dict(kind="tlc", module="Props_Scan", cfg="Props_Scan.cfg", workers=1,
                        env={"GRAPH1": "art:g_set1", "GRAPH2": "art:g_set2"}),
 }
@@ -542,14 +558,14 @@ JOBS = {
 # "impl" jobs bind it to the code. impl_count: how many implementation transitions / records /
 # cells TLC validated in those jobs (computed from the artefacts).
 PROPS = {
-    "C01": dict(quick=["mc_set2", "conf_set2", "conf_kb2_bytes", "replay_set2_q", "tracespec_kb2"],
-                thorough=["mc_set2", "conf_set2", "conf_kb2_bytes", "replay_set2_t", "tracespec_kb2_long"], graphs=["g_set2", "g_kb2_bytes"]),
-    "C02": dict(quick=["mc_set1", "conf_set1", "conf_kb1_bytes", "replay_set1_q", "tracespec_kb1"],
-                thorough=["mc_set1", "conf_set1", "conf_kb1_bytes", "replay_set1_t", "tracespec_kb1_long"], graphs=["g_set1", "g_kb1_bytes"]),
+    "C01": dict(quick=["mc_set2", "conf_set2", "conf_kb2_bytes", "replay_set2_q", "tracespec_kb2", "conf_set2_default"],
+                thorough=["mc_set2", "conf_set2", "conf_kb2_bytes", "replay_set2_t", "tracespec_kb2_long", "conf_set2_default"], graphs=["g_set2", "g_kb2_bytes"]),
+    "C02": dict(quick=["mc_set1", "conf_set1", "conf_kb1_bytes", "replay_set1_q", "tracespec_kb1", "conf_set1_default"],
+                thorough=["mc_set1", "conf_set1", "conf_kb1_bytes", "replay_set1_t", "tracespec_kb1_long", "conf_set1_default"], graphs=["g_set1", "g_kb1_bytes"]),
     "C05": dict(quick=["mc_frame", "conf_words", "replay_words"], thorough=["mc_frame_full", "conf_words", "replay_words"],
                 tables=["t_words"]),
-    "C06": dict(quick=["mc_frame", "mc_link", "mc_link_hazard", "conf_frame", "replay_frame_q"],
-                thorough=["mc_frame_full", "mc_link", "mc_link_hazard", "conf_frame", "replay_frame_t"],
+    "C06": dict(quick=["mc_frame", "mc_link", "mc_link_hazard", "conf_frame", "replay_frame_q", "conf_frame_default"],
+                thorough=["mc_frame_full", "mc_link", "mc_link_hazard", "conf_frame", "replay_frame_t", "conf_frame_default"],
                 graphs=["g_frame"]),
     "C07": dict(quick=["mc_set1", "mc_set2", "props_scan", "selfreplay_set1_q", "selfreplay_set2_q"],
                 thorough=["mc_set1", "mc_set2", "props_scan", "selfreplay_set1_t", "selfreplay_set2_t"], graphs=["g_set1", "g_set2"]),
@@ -573,10 +589,10 @@ PROPS = {
     "C11": dict(quick=["conf_layouts_model", "conf_layouts", "conf_preds"], tables=["t_layouts", "t_preds"]),
     "C04": dict(quick=["mc_event", "conf_event", "conf_kb2_events", "replay_event_q", "tracespec_kb2"],
                 thorough=["mc_event", "conf_event", "conf_kb2_events", "replay_event_t", "tracespec_kb2_long"], graphs=["g_event", "g_kb2_events"]),
-    "C14": dict(quick=["mc_event", "conf_event", "conf_kb2_events", "replay_event_q", "tracespec_kb2"],
-                thorough=["mc_event", "conf_event", "conf_kb2_events", "replay_event_t", "tracespec_kb2_long"], graphs=["g_event", "g_kb2_events"]),
+    "C14": dict(quick=["mc_event", "conf_event", "conf_kb2_events", "replay_event_q", "tracespec_kb2", "conf_eventlayouts"],
+                thorough=["mc_event", "conf_event", "conf_kb2_events", "replay_event_t", "tracespec_kb2_long", "conf_eventlayouts"], graphs=["g_event", "g_kb2_events"]),
     "C08": dict(quick=["mc_frame", "conf_frame", "conf_words", "conf_set1", "conf_set2", "conf_kb1_bytes",
-                       "conf_kb2_bytes", "conf_event", "conf_kb2_events", "conf_layouts"],
+                       "conf_kb2_bytes", "conf_event", "conf_kb2_events", "conf_layouts", "conf_eventlayouts", "conf_frame_default", "conf_set1_default", "conf_set2_default", "replay_frame_q", "replay_set1_q", "replay_set2_q", "replay_event_q"],
                 graphs=["g_frame", "g_set1", "g_set2", "g_kb1_bytes", "g_kb2_bytes", "g_event", "g_kb2_events"],
                 tables=["t_words", "t_layouts"]),
     "C12": dict(quick=["conf_layouts_model", "conf_layouts"], tables=["t_layouts"]),
@@ -594,6 +610,9 @@ def hexb(b):
 def canon_key(rec):
     """canonical, stable identity of a violating case (used for known findings)"""
     k = rec.get("kind")
+    if str(rec.get("comp", "")).endswith("_default"):
+        # the same stage built through its second public constructor (Default): same case identity
+        rec = dict(rec, comp=rec["comp"][:-len("_default")])
     if k == "io":
         inp = rec.get("input")
         inp_s = hexb(inp) if isinstance(inp, int) else json.dumps(inp, separators=(",", ":"))
@@ -649,6 +668,7 @@ def canon_key(rec):
     if k == "makebreak":
         return "makebreak comp=%s seq=%s" % (rec.get("comp"), " ".join(hexb(b) for b in rec["seq"]))
     if "cells" in rec and "layout" in rec:
+        rec = dict(rec, cells=[list(c) for c in rec["cells"]])
         dig = hashlib.sha256(json.dumps(sorted(rec["cells"])).encode()).hexdigest()[:10]
         return "layout kind=%s obj=%s key=%s mode=%s ncells=%d digest=%s" % (
             k, rec.get("obj"), rec.get("key"), rec.get("mode"), rec.get("ncells", 0), dig)
@@ -693,7 +713,8 @@ def write_replay(ctx, pid, n, rec, jobname):
     comp = rec.get("comp")
     # turn alphabet indices into concrete inputs so the replay is self-contained
     gname = {"frame": "g_frame", "set1": "g_set1", "set2": "g_set2", "kb1": "g_kb1_bytes",
-             "kb2": "g_kb2_bytes", "event": "g_event"}.get(comp)
+             "kb2": "g_kb2_bytes", "event": "g_event", "frame_default": "g_frame_default",
+             "set1_default": "g_set1_default", "set2_default": "g_set2_default"}.get(comp)
     if comp == "kb2" and rec.get("kind") in ("event-io", "getter", "mods-shown"):
         gname = "g_kb2_events"
     if rec.get("kind") in ("kb-io", "kb-getter"):
